@@ -5,6 +5,7 @@ import (
 	"encoding/hex"
 	"encoding/json"
 	"fmt"
+	"github.com/mosaicnetworks/babble/src/node/state"
 	"os"
 	"os/exec"
 	"path/filepath"
@@ -279,7 +280,9 @@ func runCrashPoint(it CrashItem, p int, res *CrashResult, dir string) {
 		if r.CreatorIdx == 0 && r.Index == lastSelfIdx+1 {
 			created = true
 			for _, o := range x.C.Nodes[1:] {
-				if o != nil && !o.Down && !o.Has[hx] {
+				// (judged at the nodes that take part in the continuation's gossip: a newcomer whose join was not
+				// accepted before the crash is still Joining and is sent nothing)
+				if o != nil && !o.Down && o.Node.GetState() == state.Babbling && !o.Has[hx] {
 					viol("new-self-event-not-accepted", fmt.Sprintf("node %d did not accept the restarted node's first new self-event (index %d)", o.Idx, r.Index))
 				}
 			}
